@@ -1,7 +1,7 @@
 """C08 - wire encodings of shares and reports round-trip and reject malformed input."""
 from .. import lin
 from .. import query as Q
-from ..terms import Int, is_t, mk
+from ..terms import PHI, Int, is_t, mk
 from .common import S, fidx, ok_variant
 
 EXPLANATION = (
@@ -259,6 +259,27 @@ def shamir_reader_rules(ctx, R1, R3):
                         L.lin(cnt.args[0]).add(L.lin(mk("len", by)), -1).key() == lin.Lin(-24).key()
                     oky = oky and okcnt
                 det = "x window [%s,%s) y_i window [%s,%s)" % (S(lox, 2), S(hix, 2), S(loy, 4), S(hiy, 4))
+                if not i and not oky:
+                    # idiom (d): a cursor - y_i is the first 24 bytes of a loop-carried remainder that starts as s[24..],
+                    # advances by 24 per element, and the Ok path leaves the loop only with fewer than 24 bytes left
+                    def bare(t):
+                        while is_t(t) and t.op in ("deref", "refv", "copied", "conv") and len(t.args) == 1:
+                            t = t.args[0]
+                        return t
+                    cur = bare(by)
+                    j = Q.field_of_join(cur) if cur.op == "field" else cur
+                    inc = list((PHI.get(j.args[0]) or {}).values()) if is_t(j) and j.op == "phi" else []
+                    inits = [bare(v) for v in inc if not Q.contains(v, lambda z: z is cur)]
+                    steps = [bare(v) for v in inc if Q.contains(v, lambda z: z is cur)]
+
+                    def is_rest(v, base, name=None):
+                        return v.op == "slice" and (bare(v.args[0]) is base if name is None else Q.path_of(v.args[0]) == name) and \
+                            L.lin(v.args[1]).key() == lin.Lin(24).key() and v.args[2].op == "len" and bare(v.args[2].args[0]) is bare(v.args[0])
+                    ended = any(t.op == "lt" and rel == "eq" and v == 1 and t.args[0].op == "len" and bare(t.args[0].args[0]) is cur and
+                                t.args[1].op == "int" and t.args[1].args[0] == 24 for t, rel, v in Q.closure(eng, fs))
+                    oky = len(inits) == 1 and len(steps) == 1 and is_rest(inits[0], None, "s") and is_rest(steps[0], cur) and \
+                        L.lin(loy).key() == lin.Lin(0).key() and L.lin(hiy).key() == lin.Lin(24).key() and ended
+                    det = "x window [%s,%s) y_i = first 24 bytes of a cursor over s[24..] advancing by 24, exhausted on Ok: %s" % (S(lox, 2), S(hix, 2), oky)
             else:
                 # idiom (b): consecutive chunks_exact(24) of s[24..]
                 ch = Q.find_all(yw[0], lambda t: t.op == "chunks")
@@ -266,6 +287,15 @@ def shamir_reader_rules(ctx, R1, R3):
                     wb = lin.window(ch[0].args[0])
                     oky = wb is not None and Q.path_of(wb[0]) == "s" and L.lin(wb[1]).key() == lin.Lin(24).key() and \
                         L.lin(wb[2]).add(L.lin(mk("len", wb[0])), -1).key() == lin.Lin(0).key()
+                if ch and not oky and ch[0].args[2] == "chunks_exact" and ch[0].args[1].op == "int" and ch[0].args[1].args[0] == 24 and \
+                        Q.path_of(ch[0].args[0]) == "s" and collected:
+                    # idiom (c): chunks_exact(24) of all of s, the first chunk taken for x and every remaining one mapped
+                    it_ = y.args[0]
+                    while it_.op == "mapped":
+                        it_ = it_.args[0]
+                    oky = it_.op == "adapted" and it_.args[1] == "skip" and it_.args[2].op == "int" and it_.args[2].args[0] == 1 and \
+                        it_.args[0].op == "iter" and it_.args[0].args[0] is ch[0] and \
+                        yw[0].args[0].op == "elem" and yw[0].args[0].args[0] is ch[0]
                 det = "x window [%s,%s) y = chunks_exact(24) of s[24..]: %s" % (S(lox, 2), S(hix, 2), oky)
             okr = okx and oky
         # validity required for x and every y
